@@ -21,6 +21,7 @@ func rotate[K ~string](keys []K) []K {
 
 // Keys returns the keys of m sorted, rotated by an environment choice (kind "rot").
 func Keys[K ~string, V any](m map[K]V) []K {
+	coop.AccessMap(m, "map (range)", false)
 	keys := make([]K, 0, len(m))
 	for k := range m {
 		keys = append(keys, k)
@@ -36,6 +37,7 @@ func Keys[K ~string, V any](m map[K]V) []K {
 
 // SortedKeys returns the keys of m sorted (no choice).
 func SortedKeys[K ~string, V any](m map[K]V) []K {
+	coop.AccessMap(m, "map (range)", false)
 	keys := make([]K, 0, len(m))
 	for k := range m {
 		keys = append(keys, k)
